@@ -76,6 +76,8 @@ mod type_defs;
 mod values;
 #[cfg(wilfred_garden_verif)]
 mod verif_hooks;
+#[cfg(wilfred_garden_verif)]
+mod verif_machine;
 mod version;
 mod wrap_in_dbg;
 
